@@ -24,6 +24,7 @@ func init() {
 func runC10(c *Ctx) {
 	c.rulePlainStatusStores("R10.1")
 	c.ruleCasTransitions("R10.1")
+	c.ruleCloseEffectsNeedWin("R10.6")
 	c.ruleCloseSiblings("R10.2", false)
 	c.ruleClosedQueueRejects("R10.3")
 	c.rulePurge("R10.4")
@@ -327,7 +328,20 @@ func (c *Ctx) ruleValuesComplete(rule string) {
 		if be == nil || fr.Caller != nil {
 			return ""
 		}
+		isLen := false
 		if call, ok := ast.Unparen(be.X).(*ast.CallExpr); ok && resolveCallee(info, call).Key == lenF.Key {
+			isLen = true
+		} else if id, ok := ast.Unparen(be.X).(*ast.Ident); ok {
+			// n := q.Len(); if n == 0 { ... }
+			if obj := info.ObjectOf(id); obj != nil {
+				all, cnt := assignedOnlyFrom(vals, obj, func(rhs ast.Expr, idx, n int) bool {
+					call, ok := ast.Unparen(rhs).(*ast.CallExpr)
+					return ok && resolveCallee(info, call).Key == lenF.Key
+				})
+				isLen = all && cnt == 1
+			}
+		}
+		if isLen {
 			if tv := info.Types[be.Y]; tv.Value != nil && tv.Value.ExactString() == "0" {
 				switch op {
 				case token.EQL:
@@ -357,6 +371,46 @@ func (c *Ctx) ruleValuesComplete(rule string) {
 	if n == 0 {
 		c.Rep.undecided(rule, vals.Short(), "no path", "", "")
 	}
+	// every segment is listed from its own read index to its own write index: the bounds of the inner loop are
+	// fields of the segment the outer loop is at (a read offset taken from the first segment and applied to the
+	// following ones skips their first items: Purge then removes jobs it never cancels)
+	var outerVar types.Object
+	var inner *ast.ForStmt
+	ast.Inspect(vals.Body, func(nd ast.Node) bool {
+		fs, ok := nd.(*ast.ForStmt)
+		if !ok {
+			return true
+		}
+		if as, ok := fs.Init.(*ast.AssignStmt); ok && len(as.Lhs) == 1 && outerVar == nil {
+			if _, isPtr := info.TypeOf(as.Lhs[0]).Underlying().(*types.Pointer); isPtr {
+				outerVar = rootIdent(info, as.Lhs[0])
+				ast.Inspect(fs.Body, func(m ast.Node) bool {
+					if in, ok := m.(*ast.ForStmt); ok && inner == nil {
+						inner = in
+					}
+					return true
+				})
+			}
+		}
+		return true
+	})
+	if outerVar == nil || inner == nil {
+		c.Rep.undecided(rule, vals.Short(), "segment walk not recognised", c.P.pos(vals.Body), "Values() is not an outer loop over segments with an inner index loop")
+		return
+	}
+	fromSegment := func(e ast.Expr) bool {
+		sel, ok := ast.Unparen(e).(*ast.SelectorExpr)
+		return ok && rootIdent(info, sel.X) == outerVar
+	}
+	lo, hi := false, false
+	if as, ok := inner.Init.(*ast.AssignStmt); ok && len(as.Rhs) == 1 {
+		lo = fromSegment(as.Rhs[0])
+	}
+	if be, ok := ast.Unparen(inner.Cond).(*ast.BinaryExpr); ok && (be.Op == token.LSS || be.Op == token.LEQ) {
+		hi = fromSegment(be.Y)
+	}
+	c.Rep.check(lo && hi, rule, vals.Short(), "segment listed with bounds that are not its own", c.P.pos(inner), "inner loop from segment.read to segment.write of the current segment",
+		"Values() walks a segment with a start or end index that is not a field of that segment (e.g. the read offset of the first segment applied to all): items of later segments are left out of the snapshot, Purge wipes them without cancelling them")
 }
 
 func (c *Ctx) rulePurge(rule string) {
@@ -403,6 +457,54 @@ func (c *Ctx) rulePurge(rule string) {
 			atomicDrain := src != "" && src != kValuesI
 			c.Rep.check(atomicDrain, rule, f.Short(), "Values() then Purge(): two critical sections", c.P.pos(f.Body), "the closed values come from the removing operation",
 				"Purge closes the snapshot returned by Values() and then calls Purge() separately: a job enqueued between the two is removed from the queue but never closed (its Wait() hangs, it never runs)")
+		}
+	}
+}
+
+// ruleCloseEffectsNeedWin: under interference (any Load of the job status may return any value, a compare-and-swap may
+// fail) every Close implementation performs its once-only effects — releasing Wait (WaitGroup.Done), counting the
+// batch item off (WgCounter.Done), closing the outcome stream — only on paths where its own compare-and-swap to Closed
+// was won, and reports nil exactly on those paths. A Close that loses the transition (to another closer or to the
+// dispatcher) must leave everything to the winner.
+func (c *Ctx) ruleCloseEffectsNeedWin(rule string) {
+	R := c.R
+	c.Rep.rule(rule, "E5 check-then-act (interference)", "every Close: WaitGroup.Done / WgCounter.Done / stream close only after its own won compare-and-swap; nil exactly when won", 12)
+	js := c.jobStatus()
+	var domain []string
+	for _, n := range []string{"Created", "Queued", "Processing", "Finished", "Closed"} {
+		domain = append(domain, js.ByName[n])
+	}
+	once := map[string]bool{"wgdone": true, "wgcdone": true, "respclose": true}
+	for _, f := range c.closeImpls() {
+		v := c.vocab([]string{"statuscas:", "casok", "wgdone", "wgcdone", "respclose"}, map[string]bool{"wgdone": true, "wgcdone": true, "respclose": true})
+		sr := v.seq(rule, false)
+		sr.trackField = R.FJobStatus
+		sr.trackAny = domain
+		for _, sg := range sr.segments(f) {
+			if sg.Kind != "path" {
+				continue
+			}
+			desc := "[" + strings.Join(sg.Syms, " ") + "]"
+			won := -1
+			firstFx := -1
+			for i, s := range sg.Syms {
+				if s == "casok" && won < 0 {
+					won = i
+				}
+				if once[s] && firstFx < 0 {
+					firstFx = i
+				}
+			}
+			c.Rep.check(firstFx < 0 || (won >= 0 && won < firstFx), rule, f.Short(), "once-only effect without a won transition", sg.End, "effects only after the won compare-and-swap",
+				f.Short()+" releases waiters / counts the batch item off / closes the outcome stream on a path where its own transition to Closed was not won (another closer or the dispatcher won it and does the same): double release or a batch counter that reaches zero early "+desc)
+			if len(sg.Ret) == 1 {
+				if sg.Ret[0].Kind == VNil {
+					c.Rep.check(won >= 0, rule, f.Short(), "Close reports success without winning the transition", sg.End, "nil only after a won compare-and-swap",
+						f.Short()+" returns nil on a path where it did not win the transition to Closed "+desc)
+				} else if won >= 0 && (sg.Ret[0].Kind == VObj || sg.Ret[0].Kind == VNonNil) {
+					c.Rep.fail(rule, f.Short(), "Close reports an error after winning the transition", sg.End, f.Short()+" won the transition to Closed but returns an error "+desc)
+				}
+			}
 		}
 	}
 }
